@@ -66,6 +66,7 @@ Section Stmt.
     match ro with
     | Ok (Next r') => exists ls', exec_l code [] ls = ONorm [] ls' /\ sim sc r' ls'
     | Ok (Ret v) => vok ret v /\ exec_l code [] ls = ORet (wv ret v)
+    | Ok (Brk _) | Ok (Cont _) => False        (* cannot happen in loop-free code *)
     | RtErr => exec_l code [] ls = OTrap TDivZero
     | Unspec => True
     end.
@@ -164,17 +165,20 @@ Section Stmt.
 
   Definition stmt_spec (s : stmt) : Prop :=
     forall sc sc', check_stmt tys np ret sc s = Some sc' -> sflags_stmt tys s = [] ->
-    exists code d, cstmt tys ret s = Some (code, d) /\
+    loop_free_stmt s = true ->
+    exists code d, (forall dp lp, cstmt tys ret dp lp s = Some (code, d)) /\
       forall r ls, sim sc r ls -> dflags_stmt fo tys r s = [] ->
         osim code (exec_stmt fo tys r s) sc' ls /\ (d = true -> never_next (exec_stmt fo tys r s)).
   Definition block_spec (b : block) : Prop :=
     forall sc, check_block tys np ret sc b = true -> sflags_block tys b = [] ->
-    exists code d, cblock tys ret b = Some (code, d) /\
+    loop_free_block b = true ->
+    exists code d, (forall dp lp, cblock tys ret dp lp b = Some (code, d)) /\
       forall r ls, sim sc r ls -> dflags_block fo tys r b = [] ->
         osim code (exec_block fo tys r b) sc ls /\ (d = true -> never_next (exec_block fo tys r b)).
   Definition els_spec (el : els) : Prop :=
     forall sc, check_els tys np ret sc el = true -> sflags_els tys el = [] ->
-    exists code he d, cels tys ret el = Some (code, he, d) /\
+    loop_free_els el = true ->
+    exists code he d, (forall dp lp, cels tys ret dp lp el = Some (code, he, d)) /\
       forall r ls, sim sc r ls -> dflags_els fo tys r el = [] ->
         osim code (exec_els fo tys r el) sc ls /\ (d = true -> never_next (exec_els fo tys r el)).
 
@@ -204,7 +208,7 @@ Section Stmt.
                 (if w =? 0 then match celo with Some e => exec_l e [] ls | None => ONorm [] ls end
                  else exec_l cth [] ls) = exec_l code [] ls ->
                 osim (cc ++ [If None cth celo] ++ tail) ro sc ls).
-    { intros ro code Ho Hn Eq. destruct ro as [[r'|v]| |]; simpl in *; [| | |exact I].
+    { intros ro code Ho Hn Eq. destruct ro as [[r'|v|r'|r']| |]; simpl in *; [| |contradiction|contradiction| |exact I].
       - destruct Ho as (ls' & X' & S'). exists ls'. split; [|assumption].
         rewrite exec_l_app, X, exec_l_cons, exec_if, Eq, X'.
         destruct Hn as [->|Hn]; [apply exec_l_nil|]. exfalso. apply (Hn r'). reflexivity.
